@@ -1,1 +1,445 @@
--- property theorems for C15 (stub)
+import RP.Lemmas.Codec
+/-! # C15 — Compact numeric encodings are lossless
+
+Theorems about the packings of `RP/Model/Codec.lean` (the definitions the driver `drv_c15` runs
+against the real `From` impls).  Each round trip is stated for **all** values of its domain and
+proved by arithmetic on bit fields; injectivity follows from the round trip. Domains:
+
+* cards: `c < 52`; hands: every subset of the deck mask; observations: every pocket/board word
+  `< 2^64` with 2 pocket and ≤ 5 board cards (street recovery: 0/3/4/5 board cards);
+* actions: fold, check, call/raise/shove/blind with **every** `i16` amount (negative amounts
+  sign-extend in `as u32` and are still recovered by `as i16`), draws of 0..3 cards
+  (a draw of ≥ 4 cards keeps only its three lowest cards: see `draw_four_lossy`);
+* edges: the 15 edges (5 + `Odds::GRID`) through `u8`, every raise with `0 ≤ num, den ≤ 255`
+  through `u64`; paths: every list of ≤ 16 of the 15 edges;
+* abstractions: every `(street, index)` with `street ≤ 3` (index taken modulo 4096), every
+  `(variant, bits)` whose variant agrees with its street tag; buckets componentwise;
+* pair keys: all unordered pairs inside flop, turn and river bucket sets (23,474 keys). -/
+namespace RP.C15
+open RP.Bits RP.Gen RP.Codec
+
+/-- a decoder that inverts an encoder on a domain makes the encoder injective there -/
+theorem inj_of_roundtrip {α β : Type} (D : α → Prop) (enc : α → β) (dec : β → Option α)
+    (h : ∀ a, D a → dec (enc a) = some a) : ∀ a b, D a → D b → enc a = enc b → a = b := by
+  intro a b ha hb e
+  have := h a ha; rw [e, h b hb] at this
+  exact (Option.some.inj this).symm
+
+/-! ## casts -/
+theorem ofI64_toI64 (n : Nat) (h : n < 2^64) : ofI64 (toI64 n) = n := by
+  unfold ofI64 toI64; split <;> omega
+theorem toI64_ofI64 (i : Int) (h1 : -2^63 ≤ i) (h2 : i < 2^63) : toI64 (ofI64 i) = i := by
+  unfold ofI64 toI64; split <;> omega
+theorem toI64_injective (a b : Nat) (ha : a < 2^64) (hb : b < 2^64) (h : toI64 a = toI64 b) : a = b := by
+  rw [← ofI64_toI64 a ha, h, ofI64_toI64 b hb]
+
+/-! ## Card ↔ u8 / u32 -/
+theorem C15_card_rank_suit (c : Nat) : cardOfRS (rank c) (suit c) = c := by
+  simp only [cardOfRS, rank, suit, C15.cardMul, C15.cardRankDiv, C15.cardSuitMod]; omega
+theorem C15_card_u8 (c : Nat) : cardOfU8 (cardToU8 c) = c := rfl
+theorem C15_card_u8_injective (a b : Nat) (h : cardToU8 a = cardToU8 b) : a = b := h
+/-- all 52 cards -/
+theorem C15_card_u32 : ∀ c, c < 52 → cardOfU32 (cardToU32 c) = some c := by decide
+theorem C15_card_u32_injective : ∀ a b, a < 52 → b < 52 → cardToU32 a = cardToU32 b → a = b :=
+  inj_of_roundtrip (· < 52) cardToU32 cardOfU32 C15_card_u32
+example : cardToU32 39 = 66048 ∧ cardOfU32 66048 = some 39 := by decide
+/-- outside the image the real decoder panics: no rank bit / no suit bit -/
+example : cardOfU32 0 = none ∧ cardOfU32 1 = none := by decide
+
+/-! ## Hand ↔ u64 -/
+theorem C15_hand_u64 (mask h : Nat) (hh : h &&& mask = h) : handOfU64 mask (handToU64 h) = h := hh
+theorem C15_hand_u64_injective (a b : Nat) (h : handToU64 a = handToU64 b) : a = b := h
+/-- `Hand::from(u64)` always lands in the domain -/
+theorem C15_hand_of_u64_valid (mask n : Nat) : handOfU64 mask n &&& mask = handOfU64 mask n := by
+  unfold handOfU64; rw [Nat.and_assoc, Nat.and_self]
+/-- `Vec<Card>::from(Hand)` then `Hand::from(Vec<Card>)` -/
+theorem C15_hand_cards (h : Nat) (hh : h < 2^64) : addAll (handCards h) 0 = some h :=
+  addAll_perm_handCards h hh _ (nodup_handCards h) (fun _ => Iff.rfl)
+example : handCards 0b100101 = [0, 2, 5] ∧ addAll [0, 2, 5] 0 = some 0b100101 := by decide
+
+/-! ## Observation ↔ i64, street from the code -/
+/-- the values of `Observation`: two pocket cards, at most five board cards (the type's own
+assertions); overlap of pocket and board is irrelevant for the packing -/
+structure ObsDom (o : Obs) : Prop where
+  pocket_lt : o.pocket < 2^64
+  board_lt : o.board < 2^64
+  pocket_size : handSize o.pocket = 2
+  board_size : handSize o.board ≤ 5
+
+theorem map_sub_add (l : List Nat) : (l.map (fun c => C15.obsOffset + c)).map (· - C15.obsDecOffset) = l := by
+  simp [C15.obsOffset, C15.obsDecOffset, List.map_map, Function.comp_def]
+
+/-- the digit string an observation is packed into, least significant first -/
+def obsDigitsLE (o : Obs) : List Nat :=
+  ((handCards o.pocket).map (fun c => C15.obsOffset + c)).reverse ++ ((handCards o.board).map (fun c => C15.obsOffset + c)).reverse
+
+theorem obsToU64_digits (o : Obs) (h : ObsDom o) :
+    obsToU64 o = valLE 8 (obsDigitsLE o) ∧ valLE 8 (obsDigitsLE o) < 2^56 ∧
+    (obsDigitsLE o).length = 2 + handSize o.board ∧ (∀ d ∈ obsDigitsLE o, 0 < d ∧ d < 256) := by
+  have hcards : obsCards o = handCards o.board ++ handCards o.pocket := by simp [obsCards, C15.obsPublicFirst]
+  have hlen : (obsCards o).length = handSize o.board + 2 := by
+    rw [hcards, List.length_append, length_handCards, length_handCards, h.pocket_size]
+  have hmem : ∀ c ∈ obsCards o, c < 64 := by
+    intro c hc; rw [hcards, List.mem_append, mem_handCards, mem_handCards] at hc
+    rcases hc with hc | hc <;> exact hc.1
+  have e := obsToU64_eq o (by have := h.board_size; omega) hmem
+  have hrev : ((obsCards o).map (fun c => C15.obsOffset + c)).reverse = obsDigitsLE o := by
+    rw [hcards, List.map_append, List.reverse_append]; rfl
+  rw [hrev] at e
+  have hdig : ∀ d ∈ obsDigitsLE o, 0 < d ∧ d < 256 := by
+    intro d hd
+    rw [← hrev] at hd
+    simp only [List.mem_reverse, List.mem_map, C15.obsOffset] at hd
+    obtain ⟨c, hc, rfl⟩ := hd
+    have := hmem c hc; omega
+  have hl : (obsDigitsLE o).length = 2 + handSize o.board := by
+    rw [← hrev, List.length_reverse, List.length_map, hlen]; omega
+  refine ⟨e, ?_, hl, hdig⟩
+  have := valLE_lt 8 (obsDigitsLE o) (fun d hd => by have := hdig d hd; omega)
+  have hle : 2^((obsDigitsLE o).length * 8) ≤ 2^56 := Nat.pow_le_pow_right (by omega) (by have := h.board_size; omega)
+  omega
+
+/-- **Observation round trip** — every observation (2 pocket cards, ≤ 5 board cards, any cards of
+a 64-bit word) is recovered from its `i64` code. -/
+theorem C15_obs_roundtrip (o : Obs) (h : ObsDom o) : obsOfI64 (obsToI64 o) = some o := by
+  obtain ⟨e, hlt, hl, hdig⟩ := obsToU64_digits o h
+  have hI : obsToI64 o = ((valLE 8 (obsDigitsLE o) : Nat) : Int) := by
+    unfold obsToI64 toI64; rw [e]; split <;> omega
+  unfold obsOfI64
+  rw [hI, obsDigits_nat]
+  simp only [C15.obsDecDigits, C15.obsDecShift]
+  rw [digitsRem_valLE _ 8 hdig (by have := h.board_size; omega)]
+  unfold obsDigitsLE
+  rw [obsFold_head C15.obsDecOffset C15.obsDecPocket _ _ 0 0 0
+    (by simp [C15.obsDecPocket, length_handCards, h.pocket_size])
+    (by intro d hd; have := hdig d hd; simp only [C15.obsDecOffset]; omega)]
+  rw [← List.map_reverse, ← List.map_reverse, map_sub_add, map_sub_add]
+  rw [addAll_perm_handCards o.pocket h.pocket_lt _ (nodup_reverse' (nodup_handCards _)) (fun j => List.mem_reverse),
+      addAll_perm_handCards o.board h.board_lt _ (nodup_reverse' (nodup_handCards _)) (fun j => List.mem_reverse)]
+  simp [obsMk, h.pocket_size, h.board_size, C15.obsPocketSize, C15.obsPublicMax]
+
+/-- **Distinct observations get distinct codes.** -/
+theorem C15_obs_injective : ∀ a b, ObsDom a → ObsDom b → obsToI64 a = obsToI64 b → a = b :=
+  inj_of_roundtrip ObsDom obsToI64 obsOfI64 C15_obs_roundtrip
+
+/-- **The street is recovered from the observation code alone** (0/3/4/5 board cards), and it is
+the street `Observation::street()` reports. -/
+theorem C15_obs_street (o : Obs) (h : ObsDom o) :
+    streetOfObsCode (obsToI64 o) = obsStreet o := by
+  obtain ⟨e, hlt, hl, hdig⟩ := obsToU64_digits o h
+  have hI : obsToI64 o = ((valLE 8 (obsDigitsLE o) : Nat) : Int) := by
+    unfold obsToI64 toI64; rw [e]; split <;> omega
+  unfold streetOfObsCode obsStreet
+  rw [hI, obsDigits_nat]
+  have hd : digitsRem C15.streetDecShift C15.streetDecDigits (valLE 8 (obsDigitsLE o)) = obsDigitsLE o :=
+    digitsRem_valLE _ 8 hdig (by have := h.board_size; omega)
+  simp only [hd]
+  have hall : (obsDigitsLE o).all (fun d => decide (C15.streetDecOffset ≤ d ∧ d - C15.streetDecOffset < 64)) = true := by
+    rw [List.all_eq_true]; intro d hd
+    have h64 : 1 ≤ d ∧ d ≤ 64 := by
+      simp only [obsDigitsLE, List.mem_append, List.mem_reverse, List.mem_map, C15.obsOffset] at hd
+      rcases hd with ⟨c, hc, rfl⟩ | ⟨c, hc, rfl⟩ <;> have := ((mem_handCards _ c).mp hc).1 <;> omega
+    simp only [C15.streetDecOffset]
+    exact decide_eq_true (by omega)
+  have hsk : (obsDigitsLE o).length - C15.streetDecSkip = handSize o.board := by
+    rw [hl]; simp [C15.streetDecSkip]
+  rw [hsk]
+  simp only [hall, if_true]
+
+theorem C15_obs_street_defined (o : Obs) (h : ObsDom o) (hs : handSize o.board = 0 ∨ handSize o.board = 3 ∨ handSize o.board = 4 ∨ handSize o.board = 5) :
+    ∃ s, streetOfObsCode (obsToI64 o) = some s ∧ (s, handSize o.board) ∈ [(0, 0), (1, 3), (2, 4), (3, 5)] := by
+  rw [C15_obs_street o h]; unfold obsStreet
+  rcases hs with e | e | e | e <;> rw [e] <;> decide
+
+-- A♠K♠ | 2♣ 3♣ 4♣ : board first (most significant), the highest pocket card is the lowest byte
+example : obsToI64 ⟨(1 <<< 51) ||| (1 <<< 47), 0b10001 ||| (1 <<< 8)⟩ = 0x0105093034 ∧
+    obsOfI64 0x0105093034 = some ⟨(1 <<< 51) ||| (1 <<< 47), 0b10001 ||| (1 <<< 8)⟩ ∧
+    streetOfObsCode 0x0105093034 = some 1 := by decide
+/-- the `+1` offset: the deuce of clubs (card 0) is digit 1, so a pocket holding it is not cut short -/
+example : obsToI64 ⟨0b11, 0⟩ = 0x0102 ∧ obsOfI64 0x0102 = some ⟨0b11, 0⟩ ∧ streetOfObsCode 0x0102 = some 0 := by decide
+
+/-! ## Action ↔ u32 -/
+def I16 (x : Int) : Prop := -32768 ≤ x ∧ x ≤ 32767
+/-- the domain: every `i16` amount (the property names 0..=32767; negative amounts are covered
+too), draws of at most three cards -/
+def ActionDom : Action → Prop
+  | .draw h => h < 2^64 ∧ handSize h ≤ 3
+  | .call x => I16 x
+  | .raise x => I16 x
+  | .shove x => I16 x
+  | .blind x => I16 x
+  | .fold => True
+  | .check => True
+
+theorem actBits_eq : actBits = 8 := by decide
+theorem and_mask (v : Nat) : v &&& actionMask = v % 256 := by
+  have : actionMask = 2^8 - 1 := by decide
+  rw [this, Nat.and_two_pow_sub_one_eq_mod]
+
+/-- amount field: `code | (x as u32) << 8`, read back with `& 0xFF`, `>> 8`, `as i16` -/
+theorem chips_fields (code : Nat) (x : Int) (hc : code < 256) (hx : I16 x) :
+    chipsToU32 code x &&& actionMask = code ∧ toI16 (chipsToU32 code x >>> actBits) = x := by
+  have e : chipsToU32 code x = code + ((x % 2^32).toNat % 2^24) * 2^8 := by
+    unfold chipsToU32 u32 i16ToU32
+    rw [actBits_eq]
+    have : ((x % 2^32).toNat <<< 8) % 2^32 = ((x % 2^32).toNat % 2^24) <<< 8 := by
+      rw [Nat.shiftLeft_eq, Nat.shiftLeft_eq]; omega
+    rw [this, or_shl_eq _ _ _ (by omega)]
+  rw [and_mask, actBits_eq, Nat.shiftRight_eq_div_pow, e]
+  unfold I16 at hx
+  refine ⟨by omega, ?_⟩
+  unfold toI16
+  have hd : (code + (x % 2 ^ 32).toNat % 2 ^ 24 * 2 ^ 8) / 2 ^ 8 = (x % 2 ^ 32).toNat % 2 ^ 24 := by omega
+  rw [hd]
+  split <;> omega
+
+theorem draw_positions (ds : List Nat) (hl : ds.length ≤ 3) (hd : ∀ d ∈ ds, 0 < d ∧ d < 256) :
+    (([0, 1, 2] : List Nat).map (fun i => (valLE 8 ds >>> (8 * i)) &&& actionMask)).filter (fun x => x > 0) = ds := by
+  simp only [and_mask, Nat.shiftRight_eq_div_pow, List.map_cons, List.map_nil]
+  match ds, hl, hd with
+  | [], _, _ => simp [valLE]
+  | [a], _, hd =>
+    have ha := hd a (by simp)
+    have h0 : (a + 2 ^ 8 * 0) / 2 ^ (8 * 0) % 256 = a := by omega
+    have h1 : (a + 2 ^ 8 * 0) / 2 ^ (8 * 1) % 256 = 0 := by omega
+    have h2 : (a + 2 ^ 8 * 0) / 2 ^ (8 * 2) % 256 = 0 := by omega
+    simp only [valLE, h0, h1, h2]
+    simp [List.filter, ha.1]
+  | [a, b], _, hd =>
+    have ha := hd a (by simp)
+    have hb := hd b (by simp)
+    have h0 : (a + 2 ^ 8 * (b + 2 ^ 8 * 0)) / 2 ^ (8 * 0) % 256 = a := by omega
+    have h1 : (a + 2 ^ 8 * (b + 2 ^ 8 * 0)) / 2 ^ (8 * 1) % 256 = b := by omega
+    have h2 : (a + 2 ^ 8 * (b + 2 ^ 8 * 0)) / 2 ^ (8 * 2) % 256 = 0 := by omega
+    simp only [valLE, h0, h1, h2]
+    simp [List.filter, ha.1, hb.1]
+  | [a, b, c], _, hd =>
+    have ha := hd a (by simp)
+    have hb := hd b (by simp)
+    have hc := hd c (by simp)
+    have h0 : (a + 2 ^ 8 * (b + 2 ^ 8 * (c + 2 ^ 8 * 0))) / 2 ^ (8 * 0) % 256 = a := by omega
+    have h1 : (a + 2 ^ 8 * (b + 2 ^ 8 * (c + 2 ^ 8 * 0))) / 2 ^ (8 * 1) % 256 = b := by omega
+    have h2 : (a + 2 ^ 8 * (b + 2 ^ 8 * (c + 2 ^ 8 * 0))) / 2 ^ (8 * 2) % 256 = c := by omega
+    simp only [valLE, h0, h1, h2]
+    simp [List.filter, ha.1, hb.1, hc.1]
+  | _ :: _ :: _ :: _ :: _, hl, _ => simp at hl
+
+theorem draw_fields (h : Nat) (hh : h < 2^64) (hs : handSize h ≤ 3) :
+    (actEnc 6 ||| drawToU32 h) &&& actionMask = 6 ∧ drawOfData ((actEnc 6 ||| drawToU32 h) >>> actBits) = some h := by
+  have htake : (handCards h).take C15.drawTake = handCards h := by
+    apply List.take_of_length_le; rw [length_handCards]; exact hs
+  let ds := (handCards h).map (fun c => c + C15.drawOffset)
+  have hds : ∀ d ∈ ds, 0 < d ∧ d < 256 := by
+    intro d hd
+    simp only [ds, List.mem_map, C15.drawOffset] at hd
+    obtain ⟨c, hc, rfl⟩ := hd
+    have := ((mem_handCards h c).mp hc).1; omega
+  have hlen : ds.length ≤ 3 := by simp only [ds, List.length_map, length_handCards]; exact hs
+  have hv := valLE_lt 8 ds (fun d hd => by have := hds d hd; omega)
+  have hv24 : valLE 8 ds < 2^24 := by
+    have : 2^(ds.length * 8) ≤ 2^24 := Nat.pow_le_pow_right (by omega) (by omega)
+    omega
+  have e : actEnc 6 ||| drawToU32 h = 6 + valLE 8 ds * 2^8 := by
+    unfold drawToU32 u32
+    rw [htake, actBits_eq]
+    rw [packAt_eq 8 32 ds 0 0 (fun d hd => by have := hds d hd; omega) (by omega) (by omega)]
+    have e6 : actEnc 6 = 6 := by decide
+    simp only [Nat.zero_mul, Nat.pow_zero, Nat.one_mul, Nat.zero_add, e6]
+    have : (valLE 8 ds <<< 8) % 2^32 = valLE 8 ds <<< 8 := by
+      apply Nat.mod_eq_of_lt; rw [Nat.shiftLeft_eq]; omega
+    rw [this, or_shl_eq _ _ _ (by omega)]
+  rw [e, and_mask, actBits_eq, Nat.shiftRight_eq_div_pow]
+  refine ⟨by omega, ?_⟩
+  have hdv : (6 + valLE 8 ds * 2 ^ 8) / 2 ^ 8 = valLE 8 ds := by omega
+  rw [hdv]
+  unfold drawOfData
+  have hpos : (C15.drawDecPositions.map (fun i => (valLE 8 ds >>> (actBits * i)) &&& actionMask)).filter (fun x => x > 0) = ds := by
+    rw [actBits_eq]; exact draw_positions ds hlen hds
+  simp only [hpos]
+  have hall : ds.all (fun x => decide (C15.drawDecOffset ≤ x % 256)) = true := by
+    rw [List.all_eq_true]; intro d hd
+    have := hds d hd
+    exact decide_eq_true (by simp only [C15.drawDecOffset]; omega)
+  simp only [hall, if_true]
+  have hmap : ds.map (fun x => x % 256 - C15.drawDecOffset) = handCards h := by
+    simp only [ds, List.map_map]
+    rw [List.map_congr_left (g := id)]
+    · simp
+    · intro c hc
+      have := ((mem_handCards h c).mp hc).1
+      simp only [Function.comp, C15.drawOffset, C15.drawDecOffset, id]; omega
+  rw [hmap]
+  exact C15_hand_cards h hh
+
+/-- **Action round trip** — fold, check, every `i16` amount of call/raise/shove/blind, every draw
+of at most three cards. -/
+theorem C15_action_roundtrip (a : Action) (h : ActionDom a) : actionOfU32 (actionToU32 a) = some a := by
+  have d0 : actDec 0 = 0 := by decide
+  have d1 : actDec 1 = 1 := by decide
+  have d2 : actDec 2 = 2 := by decide
+  have d3 : actDec 3 = 3 := by decide
+  have d4 : actDec 4 = 4 := by decide
+  have d5 : actDec 5 = 5 := by decide
+  have d6 : actDec 6 = 6 := by decide
+  cases a with
+  | fold => decide
+  | check => decide
+  | call x =>
+    have ek : actEnc 2 = 2 := by decide
+    have ⟨k, b⟩ := chips_fields 2 x (by decide) h
+    simp [actionOfU32, actionToU32, k, b, d0, d1, d2, ek]
+  | raise x =>
+    have ek : actEnc 3 = 3 := by decide
+    have ⟨k, b⟩ := chips_fields 3 x (by decide) h
+    simp [actionOfU32, actionToU32, k, b, d0, d1, d2, d3, ek]
+  | shove x =>
+    have ek : actEnc 4 = 4 := by decide
+    have ⟨k, b⟩ := chips_fields 4 x (by decide) h
+    simp [actionOfU32, actionToU32, k, b, d0, d1, d2, d3, d4, ek]
+  | blind x =>
+    have ek : actEnc 5 = 5 := by decide
+    have ⟨k, b⟩ := chips_fields 5 x (by decide) h
+    simp [actionOfU32, actionToU32, k, b, d0, d1, d2, d3, d4, d5, ek]
+  | draw hd =>
+    have ⟨k, b⟩ := draw_fields hd h.1 h.2
+    simp [actionOfU32, actionToU32, k, b, d0, d1, d2, d3, d4, d5, d6]
+
+/-- **Distinct actions get distinct codes.** -/
+theorem C15_action_injective : ∀ a b, ActionDom a → ActionDom b → actionToU32 a = actionToU32 b → a = b :=
+  inj_of_roundtrip ActionDom actionToU32 actionOfU32 C15_action_roundtrip
+
+example : actionToU32 (.call 32767) = 0x7FFF02 ∧ actionOfU32 0x7FFF02 = some (.call 32767) := by decide
+/-- a negative amount sign-extends to 32 bits, the shift drops the top byte, `as i16` recovers it -/
+example : actionToU32 (.raise (-1)) = 0xFFFFFF03 ∧ actionOfU32 0xFFFFFF03 = some (.raise (-1)) := by decide
+example : actionToU32 (.draw 0b10011) = 0x05020106 ∧ actionOfU32 0x05020106 = some (.draw 0b10011) := by decide
+/-- outside the domain: a draw of four cards keeps only the three lowest (`take(3)`) -/
+theorem draw_four_lossy : actionOfU32 (actionToU32 (.draw 0b1111)) = some (.draw 0b0111) := by decide
+
+/-! ## Edge ↔ u8 / u64 -/
+/-- the 15 abstract edges: five plain ones and one raise per entry of `Odds::GRID` -/
+def allEdges : List Edge := [.draw, .fold, .check, .call, .shove] ++ grid.map (fun o => .raise o.1 o.2)
+
+def edgeU8Ok (e : Edge) : Bool :=
+  match edgeToU8 e with
+  | some c => decide (0 < c) && decide (c < 16) && (edgeOfU8 c == some e)
+  | none => false
+theorem edgeU8Ok_all : ∀ e ∈ allEdges, edgeU8Ok e = true := by decide
+
+/-- **Edge ↔ u8**: each of the 15 edges has a code in `1..=15` (a non-zero nibble) that decodes back. -/
+theorem C15_edge_u8 (e : Edge) (h : e ∈ allEdges) :
+    ∃ c, edgeToU8 e = some c ∧ (0 < c ∧ c < 16) ∧ edgeOfU8 c = some e := by
+  have := edgeU8Ok_all e h
+  unfold edgeU8Ok at this
+  cases hc : edgeToU8 e with
+  | none => rw [hc] at this; simp at this
+  | some c =>
+    rw [hc] at this
+    simp only [Bool.and_eq_true, decide_eq_true_eq, beq_iff_eq] at this
+    exact ⟨c, rfl, ⟨this.1.1, this.1.2⟩, this.2⟩
+theorem C15_edge_u8_injective (a b : Edge) (ha : a ∈ allEdges) (hb : b ∈ allEdges) (h : edgeToU8 a = edgeToU8 b) : a = b := by
+  obtain ⟨c, hc, _, hd⟩ := C15_edge_u8 a ha
+  obtain ⟨c', hc', _, hd'⟩ := C15_edge_u8 b hb
+  rw [hc, hc'] at h
+  have : c = c' := Option.some.inj h
+  subst this; rw [hd] at hd'; exact Option.some.inj hd'
+theorem allEdges_length : allEdges.length = 15 := by decide
+/-- a raise with odds outside the grid has no `u8` code (the real code panics) -/
+example : edgeToU8 (.raise 5 7) = none ∧ edgeToU8 (.raise 1 2) = some 8 ∧ edgeOfU8 8 = some (.raise 1 2) := by decide
+
+/-- **Edge ↔ u64**: every raise whose odds fit in 8 bits each (in particular the whole grid). -/
+theorem C15_edge_u64_raise (n d : Int) (hn : 0 ≤ n ∧ n ≤ 255) (hd : 0 ≤ d ∧ d ≤ 255) :
+    edgeOfU64 (edgeToU64 (.raise n d)) = some (.raise n d) := by
+  have e : edgeToU64 (.raise n d) = 4 + n.toNat * 2^3 + d.toNat * 2^11 := by
+    simp only [edgeToU64]
+    have e5 : e64 5 = 4 := by decide
+    have e6 : e64 6 = 3 := by decide
+    have e7 : e64 7 = 11 := by decide
+    rw [e5, e6, e7]
+    have hn' : u64 (i16ToU64 n <<< 3) = n.toNat <<< 3 := by
+      unfold u64 i16ToU64; rw [Nat.shiftLeft_eq, Nat.shiftLeft_eq]; omega
+    have hd' : u64 (i16ToU64 d <<< 11) = d.toNat <<< 11 := by
+      unfold u64 i16ToU64; rw [Nat.shiftLeft_eq, Nat.shiftLeft_eq]; omega
+    rw [hn', hd', or_shl_eq 4 _ 3 (by omega), or_shl_eq _ _ 11 (by omega)]
+  rw [e]
+  unfold edgeOfU64
+  have m10 : d64 10 = 2^3 - 1 := by decide
+  have m7 : d64 7 = 2^8 - 1 := by decide
+  have m9 : d64 9 = 2^8 - 1 := by decide
+  have s6 : d64 6 = 3 := by decide
+  have s8 : d64 8 = 11 := by decide
+  simp only [m10, m7, m9, s6, s8, Nat.and_two_pow_sub_one_eq_mod, Nat.shiftRight_eq_div_pow]
+  have t : (4 + n.toNat * 2 ^ 3 + d.toNat * 2 ^ 11) % 2 ^ 3 = 4 := by omega
+  have a : (4 + n.toNat * 2 ^ 3 + d.toNat * 2 ^ 11) / 2 ^ 3 % 2 ^ 8 = n.toNat := by omega
+  have b : (4 + n.toNat * 2 ^ 3 + d.toNat * 2 ^ 11) / 2 ^ 11 % 2 ^ 8 = d.toNat := by omega
+  rw [t, a, b]
+  have tn : toI16 n.toNat = n := by unfold toI16; split <;> omega
+  have td : toI16 d.toNat = d := by unfold toI16; split <;> omega
+  rw [tn, td]
+  have t0 : d64 0 = 0 := by decide
+  have t1 : d64 1 = 1 := by decide
+  have t2 : d64 2 = 2 := by decide
+  have t3 : d64 3 = 3 := by decide
+  have t5 : d64 5 = 4 := by decide
+  simp [t0, t1, t2, t3, t5]
+theorem C15_edge_u64_plain : ∀ e ∈ [Edge.draw, .fold, .check, .call, .shove], edgeOfU64 (edgeToU64 e) = some e := by decide
+/-- all 15 edges through `u64` -/
+theorem C15_edge_u64 : ∀ e ∈ allEdges, edgeOfU64 (edgeToU64 e) = some e := by decide
+theorem C15_edge_u64_injective : ∀ a b, a ∈ allEdges → b ∈ allEdges → edgeToU64 a = edgeToU64 b → a = b :=
+  inj_of_roundtrip (· ∈ allEdges) edgeToU64 edgeOfU64 C15_edge_u64
+example : edgeToU64 (.raise 3 4) = 4 + 3 * 8 + 4 * 2048 := by decide
+/-- outside the domain: a negative numerator sign-extends over the denominator field and is lost -/
+example : edgeOfU64 (edgeToU64 (.raise (-1) 2)) = some (.raise 255 255) := by decide
+
+/-! ## Path ↔ Vec<Edge> -/
+theorem optAll_roundtrip {α β : Type} (f : α → Option β) (g : β → Option α) (P : β → Prop) :
+    ∀ es : List α, (∀ e ∈ es, ∃ c, f e = some c ∧ P c ∧ g c = some e) →
+    ∃ cs, optAll f es = some cs ∧ cs.length = es.length ∧ (∀ c ∈ cs, P c) ∧ optAll g cs = some es
+  | [], _ => ⟨[], rfl, rfl, by simp, rfl⟩
+  | e :: es, h => by
+    obtain ⟨c, hc, hp, hg⟩ := h e (by simp)
+    obtain ⟨cs, h1, h2, h3, h4⟩ := optAll_roundtrip f g P es (fun x hx => h x (by simp [hx]))
+    refine ⟨c :: cs, by simp [optAll, hc, h1], by simp [h2], ?_, by simp [optAll, hg, h4]⟩
+    intro x hx
+    rcases List.mem_cons.mp hx with rfl | hx
+    · exact hp
+    · exact h3 x hx
+
+/-- **Path round trip** — every list of at most 16 of the 15 edges packs into a `u64` and unpacks
+to the same list (nibble `i` = `u8(edge i)`, the walk stops at the first zero nibble or after 16). -/
+theorem C15_path_roundtrip (es : List Edge) (hl : es.length ≤ 16) (he : ∀ e ∈ es, e ∈ allEdges) :
+    ∃ p, pathOfEdges es = some p ∧ p < 2^64 ∧ pathToEdges p = some es := by
+  obtain ⟨cs, h1, h2, h3, h4⟩ := optAll_roundtrip edgeToU8 edgeOfU8 (fun c => 0 < c ∧ c < 16) es
+    (fun e h => C15_edge_u8 e (he e h))
+  have p3 : pp 3 = 16 := by decide
+  have p4 : pp 4 = 4 := by decide
+  have p0 : pp 0 = 16 := by decide
+  have p1 : pp 1 = 4 := by decide
+  have p2 : pp 2 = 2^4 - 1 := by decide
+  have hcs : ∀ c ∈ cs, c < 2^4 := fun c hc => by have := h3 c hc; omega
+  have hp : packAt 4 (2^64) 0 cs 0 = valLE 4 cs := by
+    rw [packAt_eq 4 64 cs 0 0 hcs (by omega) (by omega)]; simp
+  have hv := valLE_lt 4 cs hcs
+  have hle : 2^(cs.length * 4) ≤ 2^64 := Nat.pow_le_pow_right (by omega) (by omega)
+  refine ⟨valLE 4 cs, ?_, by omega, ?_⟩
+  · unfold pathOfEdges; rw [p3, p4, if_pos hl, h1]; simp only [hp]
+  · unfold pathToEdges; rw [p0, p1, p2, nibbles_valLE 4 cs 16 (fun c hc => by have := h3 c hc; exact ⟨this.1, by omega⟩) (by omega)]
+    exact h4
+
+/-- **Distinct paths get distinct codes.** -/
+theorem C15_path_injective (a b : List Edge) (ha : a.length ≤ 16) (hb : b.length ≤ 16)
+    (hae : ∀ e ∈ a, e ∈ allEdges) (hbe : ∀ e ∈ b, e ∈ allEdges) (h : pathOfEdges a = pathOfEdges b) : a = b := by
+  obtain ⟨p, h1, _, h2⟩ := C15_path_roundtrip a ha hae
+  obtain ⟨q, h3, _, h4⟩ := C15_path_roundtrip b hb hbe
+  rw [h1, h3] at h
+  have : p = q := Option.some.inj h
+  subst this; rw [h2] at h4; exact Option.some.inj h4
+/-- the stored form of a path is the `i64` reinterpretation of the word -/
+theorem C15_path_i64 (p : Nat) (h : p < 2^64) : pathOfI64 (pathToI64 p) = p := ofI64_toI64 p h
+example : pathOfEdges [.fold, .raise 1 2, .shove] = some 0x582 ∧ pathToEdges 0x582 = some [.fold, .raise 1 2, .shove] := by decide
+/-- 17 edges trip the length assertion -/
+example : pathOfEdges (List.replicate 17 Edge.fold) = none := by decide
+/-- sixteen edges use all 64 bits -/
+example : pathOfEdges (List.replicate 16 (Edge.raise 4 1)) = some 0xFFFFFFFFFFFFFFFF ∧
+    (pathToEdges 0xFFFFFFFFFFFFFFFF).map List.length = some 16 := by decide
+
+end RP.C15
